@@ -8,8 +8,8 @@ callback twice) and `Target::rasterize` (records the call, returns Throughput{i:
 
 The main scene: nine triangles over twenty-four vertices with distinct summed depths, both windings and all vertex rotations, one vertex
 shared between triangles, one triangle wholly outside the frustum, one crossing the x = w plane, one with a vertex behind the eye, one of
-sub-pixel size. Three small side scenes (two settings each) cover the shapes of input the main scene cannot: NOTHING survives clipping
-(triangles outside one plane, and one that no single plane rejects but that clips away to nothing), NO input at all, and a batch in which
+sub-pixel size. Four small side scenes (two settings each) cover the shapes of input the main scene cannot: NOTHING survives clipping
+(triangles outside one plane, and one that no single plane rejects but that clips away to nothing), NO input at all, consecutive triangles whose first vertices are DIFFERENT vertices at the same position (a seam), and a batch in which
 such a clipped-away triangle is FOLLOWED by partly visible ones (scratch state carried from one triangle to the next shows there).
 What is read off afterwards: which triangles reached
 tri_fill, in which order, with which screen positions and attributes; the number of rasterize calls; the context's statistics.
@@ -52,12 +52,18 @@ _OUT_Y = [(0.0, -3.0, 0.5, 1.0), (1.0, -4.0, 0.5, 1.0), (0.0, -5.0, 0.5, 1.0)]
 _CROSS_X = [(-0.5, -0.5, 0.30, 1.0), (1.8, 0.1, 0.4, 1.0), (0.0, 0.5, 0.30, 1.0)]
 _CROSS_Y = [(-0.4, 0.2, 0.6, 1.0), (0.4, 0.2, 0.6, 1.0), (0.0, 1.7, 0.6, 1.0)]
 _INSIDE = [(-0.2, -0.6, 0.7, 1.0), (0.3, -0.6, 0.7, 1.0), (0.0, -0.1, 0.7, 1.0)]
+# two consecutive triangles whose FIRST vertices are different vertices at the same clip-space position (a hard edge, a UV seam: per-face
+# vertices): whatever is remembered from one triangle to the next must not be keyed by position alone. w = 2 there, so a/w shows.
+_SEAM = [(0.1, 0.1, 0.4, 2.0), (0.5, -0.5, 0.30, 1.0), (0.0, 0.5, 0.30, 1.0),
+         (0.1, 0.1, 0.4, 2.0), (-0.6, -0.4, 0.5, 1.0), (-0.2, 0.6, 0.5, 1.0),
+         (0.5, -0.5, 0.30, 1.0), (0.1, 0.1, 0.4, 2.0), (0.7, 0.6, 0.2, 1.0)]      # ... and once more in SECOND position, after a first-position twin
 _tri3 = lambda n: [(3 * k, 3 * k + 1, 3 * k + 2) for k in range(n)]      # noqa: E731
 _NONE_ONLY = [("None", "None"), ("Back", "FrontToBack")]
 SCENES = [
     dict(name="main", POS=POS, TRIS=TRIS, HIDDEN=HIDDEN, CLIPPED=CLIPPED, settings=None),
     dict(name="nothing visible", POS=_OUT_X + _CORNER + _OUT_Y, TRIS=_tri3(3), HIDDEN={0, 1, 2}, CLIPPED=set(), settings=_NONE_ONLY),
     dict(name="no input", POS=[], TRIS=[], HIDDEN=set(), CLIPPED=set(), settings=_NONE_ONLY),
+    dict(name="coincident vertices of consecutive triangles", POS=_SEAM, TRIS=_tri3(3), HIDDEN=set(), CLIPPED=set(), settings=_NONE_ONLY),
     dict(name="clipped-away triangle first", POS=_CORNER + _CROSS_X + _INSIDE + _CROSS_Y, TRIS=_tri3(4), HIDDEN={0}, CLIPPED={1, 3}, settings=_NONE_ONLY),
 ]
 
